@@ -256,6 +256,9 @@ func c11History(R *vr.Result, rng *rand.Rand, id, mode string, h int) (harmfulSe
 		nclients, nops = 3, 4
 	}
 	names := []string{"ua", "ub", "uc"}[:nusers]
+	if h%4 == 1 { // names that contain each other and the file extensions
+		names = []string{"u", "u.user", "u.admin"}[:nusers]
+	}
 	sets := ref.CheapSets(rng, 2)
 	var users []ovlUser
 	init := c11State{}
